@@ -60,6 +60,9 @@ func VerifyNameErrorNSEC(msg *dns.Msg, nsecSet []dns.RR) error {
 	if covering == nil {
 		return ErrNSECMissingCoverage
 	}
+	if err := nsecAncestorSpeaksForChild(qname, nsecSet); err != nil {
+		return err
+	}
 	// A next name below qname means qname is an empty non-terminal: it
 	// exists, and the interval that "covers" it denies nothing (RFC 4035
 	// §5.4, RFC 8198 Appendix B).
@@ -87,6 +90,28 @@ func VerifyNameErrorNSEC(msg *dns.Msg, nsecSet []dns.RR) error {
 		}
 	}
 	return ErrNSECMissingCoverage
+}
+
+// nsecAncestorSpeaksForChild rejects a proof that leans on an NSEC owned by
+// a strict ancestor of qname which marks a zone cut (NS without SOA) or a
+// DNAME. Such a record is the parent's side of the cut: qname lives in the
+// child zone, or under the redirection, and the parent's chain says nothing
+// about it (RFC 6840 §4.1, RFC 4035 §5.4). Without this an on-path attacker
+// replays the parent's genuine NSEC to deny any name in a signed child.
+func nsecAncestorSpeaksForChild(qname string, nsecSet []dns.RR) error {
+	qname = dns.Fqdn(qname)
+	for _, rr := range nsecSet {
+		nsec := rr.(*dns.NSEC)
+		owner := dns.Fqdn(nsec.Header().Name)
+		if nsecSameName(owner, qname) || !dnsname.Sub(owner, qname) {
+			continue
+		}
+		if (typesSet(nsec.TypeBitMap, dns.TypeNS) && !typesSet(nsec.TypeBitMap, dns.TypeSOA)) ||
+			typesSet(nsec.TypeBitMap, dns.TypeDNAME) {
+			return ErrNSECBadDelegation
+		}
+	}
+	return nil
 }
 
 func nsecSameName(a, b string) bool {
@@ -174,9 +199,20 @@ func VerifyNODATANSEC(msg *dns.Msg, nsecSet []dns.RR) error {
 			if q.Qtype == dns.TypeDS && typesSet(nsec.TypeBitMap, dns.TypeSOA) {
 				return ErrNSECBadDelegation
 			}
+			// The converse: at a zone cut (NS without SOA) this is the
+			// parent's NSEC, and the parent is authoritative for DS
+			// alone there — it cannot deny any other type of a name
+			// whose data lives in the child (RFC 6840 §4.1).
+			if q.Qtype != dns.TypeDS &&
+				typesSet(nsec.TypeBitMap, dns.TypeNS) && !typesSet(nsec.TypeBitMap, dns.TypeSOA) {
+				return ErrNSECBadDelegation
+			}
 
 			return nil
 		}
+	}
+	if err := nsecAncestorSpeaksForChild(qname, nsecSet); err != nil {
+		return err
 	}
 
 	// Wildcard NODATA (RFC 4035 §3.1.3.4): when qname has no exact
